@@ -19,26 +19,26 @@ exec(open(os.path.join(HERE, "tools", "claims.py")).read())
 
 # input classes / histories / oracle clauses added after the seeded-change rounds 2 and 3 (DESIGN.md 9.4); appended to the level text
 EXT = {
-    "C01": "dense operands reached by growth (C-ordered buffers); every input form of sptenmat.from_array (dense C/F, COO canonical / shuffled / repeated / explicit zero, CSR, CSC); NumPy-integer arguments; Kruskal matricization under every call form; structured Tucker factors (rectangular identity, orthonormal, unit-length, selector); sparse-core Tucker tensors under all 27 factor-aspect patterns; Kruskal tensors with as many or more components than entries",
-    "C02": "grown dense and sparse operands, independent operand histories for innerprod; mttkrps on shapes with off-centre memory splits and 5-6 modes; multi-mode plain-array scale factors; NumPy-integer arguments; structured Tucker factors and Kruskal weight classes (exact 1.0, all ones, a zero weight); Tucker holders with SciPy sparse factor matrices; Kruskal / Tucker tensors that denote zero by cancellation; long almost-empty sparse modes with colliding entries; sparse pairs over one position set with independent stored orders; Tucker tensors with SciPy sparse factors; zero norms through cancellation",
-    "C03": "sparse operands reached by operator -> growth -> operator histories; element-type pairs judged against NumPy promotion; non-finite stored values under scalar operations; a Kruskal right-hand side of * (mixed signs, exact integer products); negative-zero divisors; dense operands one ulp away; equal infinities; non-finite second operands; infinite / NaN scalar multipliers",
-    "C04": "strided and reversed slices; the receiver itself as right-hand side (with growth); positions counted from the end together with growth; repeated index-list entries in reads and scalar writes; reversed slices in writes; permuted runs as index lists; overshooting and downward slice bounds; ndarray index lists; bare positions for one-way sparse writes; array right-hand sides through lists with repeated positions",
-    "C05": "receiver-after-call vs argument aliasing for in-place operations; sparse-core / sparse-factor Tucker tensors in every generic entry; products over no mode; gcp evaluate / estimate entries; gcp samplers and list guesses; sums with one part / a dense part first or last",
-    "C06": "exact-cancellation family (no explicit zero may be stored); replay of C01's from_array input forms; infinite divisors; sptenmat item assignment with repeated positions and zero values; exhaustive stored orders capped at 4 nonzeros (24 drawn orders beyond); colliding diagonal entries in 4-5-way contractions; reducers other than the sum in collapse and the aggregating constructor; same-position operand pairs; region reads through non-ascending lists and downward slices",
-    "C07": "grown dense / sparse operands; narrow subscript element types; integer values beyond 2^53; NumPy-integer arguments; partial reshapes of order 9-11",
-    "C08": "object pre-histories (absorbing normalisations, redistribute, arrange, C-ordered factors, update, sign-changing steps); NumPy-integer mode arguments; exact-zero congruences in score; tovec stacking definition; update data as integers / column / row; sign fixing against references with other component counts; normal form after sign fixing against any reference; single-mode normalisation in every norm; permutations as array / list / tuple / range; unordered and repeated component lists",
+    "C01": "dense operands reached by growth (C-ordered buffers); every input form of sptenmat.from_array (dense C/F, COO canonical / shuffled / repeated / explicit zero, CSR, CSC); NumPy-integer arguments; Kruskal matricization under every call form; structured Tucker factors (rectangular identity, orthonormal, unit-length, selector); sparse-core Tucker tensors under all 27 factor-aspect patterns; Kruskal tensors with as many or more components than entries; the cyclic-order option beside an explicit column list",
+    "C02": "grown dense and sparse operands, independent operand histories for innerprod; mttkrps on shapes with off-centre memory splits and 5-6 modes; multi-mode plain-array scale factors; NumPy-integer arguments; structured Tucker factors and Kruskal weight classes (exact 1.0, all ones, a zero weight); Tucker holders with SciPy sparse factor matrices; Kruskal / Tucker tensors that denote zero by cancellation; long almost-empty sparse modes with colliding entries; sparse pairs over one position set with independent stored orders; Tucker tensors with SciPy sparse factors; zero norms through cancellation; sums of three to six parts; integer-typed sum parts",
+    "C03": "sparse operands reached by operator -> growth -> operator histories; element-type pairs judged against NumPy promotion; non-finite stored values under scalar operations; a Kruskal right-hand side of * (mixed signs, exact integer products); negative-zero divisors; dense operands one ulp away; equal infinities; non-finite second operands; infinite / NaN scalar multipliers; one object as both operands; NaN divisors and Python integers beyond machine integers as scalars",
+    "C04": "strided and reversed slices; the receiver itself as right-hand side (with growth); positions counted from the end together with growth; repeated index-list entries in reads and scalar writes; reversed slices in writes; permuted runs as index lists; overshooting and downward slice bounds; ndarray index lists; bare positions for one-way sparse writes; array right-hand sides through lists with repeated positions; a catalogue of key forms from a random stream of its own (re-ordered runs, lists starting past the extent, every step form with growth, downward slices from past the extent)",
+    "C05": "receiver-after-call vs argument aliasing for in-place operations; sparse-core / sparse-factor Tucker tensors in every generic entry; products over no mode; gcp evaluate / estimate entries; gcp samplers and list guesses; sums with one part / a dense part first or last; sparse tensors that store every entry in dense-layout / row-major order",
+    "C06": "exact-cancellation family (no explicit zero may be stored); replay of C01's from_array input forms; infinite divisors; sptenmat item assignment with repeated positions and zero values; exhaustive stored orders capped at 4 nonzeros (24 drawn orders beyond); colliding diagonal entries in 4-5-way contractions; reducers other than the sum in collapse and the aggregating constructor; same-position operand pairs; region reads through non-ascending lists and downward slices; matricized forms of one tensor under different stored orders compared as objects",
+    "C07": "grown dense / sparse operands; narrow subscript element types; integer values beyond 2^53; NumPy-integer arguments; partial reshapes of order 9-11; the new shape as a one-shot iterable",
+    "C08": "object pre-histories (absorbing normalisations, redistribute, arrange, C-ordered factors, update, sign-changing steps); NumPy-integer mode arguments; exact-zero congruences in score; tovec stacking definition; update data as integers / column / row; sign fixing against references with other component counts; normal form after sign fixing against any reference; single-mode normalisation in every norm; permutations as array / list / tuple / range; unordered and repeated component lists; weights of +-1 only; prescribed counts of negative-dominant factors (orders 3-5)",
     "C09": "data scales 1e-11..1e4; nearly superdiagonal data; stored element types of dense data (uint8..int32, bool, float32); long sparse modes with collisions",
-    "C10": "stored element types; data scales to 1e-9; steep spectra with tolerances to 1e-6; data of the requested multilinear rank up to noise 1e-4..1e-8; exactly low-rank data with tall unfoldings and requested ranks above the data's; singleton modes at every position of the Tucker-ALS sweep; tied spectra cut through the tie; coordinate-vector starts on data with a vanishing fibre",
-    "C11": "time-budget exit; per-iteration output lengths; integer count storage with a float-storage twin run; near-truth guesses; over-parameterised fits (dying components); data without any count; guesses with a zero weight; tolerance sweeps to exactly zero; restarts from converged results; sparse data with explicitly stored zero counts",
+    "C10": "stored element types; data scales to 1e-9; steep spectra with tolerances to 1e-6; data of the requested multilinear rank up to noise 1e-4..1e-8; exactly low-rank data with tall unfoldings and requested ranks above the data's; singleton modes at every position of the Tucker-ALS sweep; tied spectra cut through the tie; coordinate-vector starts on data with a vanishing fibre; spectra at the edge of the per-mode budget; options by position",
+    "C11": "time-budget exit; per-iteration output lengths; integer count storage with a float-storage twin run; near-truth guesses; over-parameterised fits (dying components); data without any count; guesses with a zero weight; tolerance sweeps to exactly zero; restarts from converged results; sparse data with explicitly stored zero counts; smallest row-solver budgets on tiny tables (thorough: 1600)",
     "C12": "mixed unit / non-unit weights with the weight-checking call form; off-centre 4-way and 5-way shapes; semi-stratified exactness identity with one / two / many nonzeros and reciprocal weights; partial sample sets (one draw, a few, leading slices only); Kruskal-operand form of the all-modes MTTKRP; zero and signed weights; residuals exactly on the Huber kink; scattered unordered correction ranges; Kruskal operands of mttkrps",
-    "C13": "solver reuse across problem sizes run to convergence; mask forms through gcp_opt with a hidden-value independence relation; explicit sampler pairings (stratified / semi-stratified / uniform) in solves; smallest two-stratum sampler requests (1+0, 0+1, 1+1, 0+3, 2+0); independent sampler kinds for function and gradient; failing-step families crossed with tolerance kinds and sampler pairings; a caller-supplied zero bound active at the solution; differential L-BFGS-B oracle through gcp_opt; earlier reports compared again after later solves",
+    "C13": "solver reuse across problem sizes run to convergence; mask forms through gcp_opt with a hidden-value independence relation; explicit sampler pairings (stratified / semi-stratified / uniform) in solves; smallest two-stratum sampler requests (1+0, 0+1, 1+1, 0+3, 2+0); independent sampler kinds for function and gradient; failing-step families crossed with tolerance kinds and sampler pairings; a caller-supplied zero bound active at the solution; differential L-BFGS-B oracle through gcp_opt; earlier reports compared again after later solves; caller-supplied bounds of either sign",
     "C14": "sparse Tucker holders; direct-solver path judged outside the separated domain; empty trailing slices; data scales 1e-100..1e8; NumPy-integer arguments; Tucker tensors with orthonormal tall factors; scattered sparse data with a diagonal Gram matrix; symmetric indefinite matrices and (I, I, 1) tensors",
-    "C15": "already-symmetric Kruskal inputs; stored element types (bool, int8, uint8, int32) and infinite entries on whole permutation orbits; NumPy-integer arguments; three and four groups (orders 6-8); data invariant under a proper subgroup only (rotations, dihedral, pair swaps; four and five listed modes); classes whose average is not a number",
+    "C15": "already-symmetric Kruskal inputs; stored element types (bool, int8, uint8, int32) and infinite entries on whole permutation orbits; NumPy-integer arguments; three and four groups (orders 6-8); data invariant under a proper subgroup only (rotations, dihedral, pair swaps; four and five listed modes); classes whose average is not a number; both versions' results under the symmetry test; 64-bit integers beyond 2^53; sequences of calls on one shape",
     "C16": "explicitly stored zeros; prior explicit-format export in the same process; grown tensors; index spaces beyond 2^53; vectors and 3-way arrays written as matrix blocks; whole-number doubles; a failed export of the same object first",
-    "C17": "narrow / huge subscript types in both memory orders against exact integer arithmetic; row sets of thousands of rows; NumPy-integer arguments; full-length index lists; signed row alphabets; all mode orders",
-    "C18": "seeded stochastic GCP on sparse data with sub-sampling; scale factors 1e-10..1e8; integer-typed data; rounding-sensitivity gate for cp_apr comparisons; relabelling for GCP (L-BFGS-B) and four-way shapes; integer-typed data in every dense / sparse CP-ALS comparison; runs ending on the time budget; masked randomly started GCP; prescribed unequal ranks under relabelling; a subset of optimised modes",
-    "C19": "all-zero / full sparse receivers for every row; one-past-the-end subscripts in a single mode; every tenmat operator incl. the broadcastable split pair; offending aggregator rows that aggregate to zero; Kruskal operands of another order, surplus / single columns in mttkrp, mttkrps row counts, array scale factors of another shape, reconstruct modes, constructor value counts, update modes, rejected assignments that would grow the receiver, sparse right-hand sides that do not fit their slice, optdims / rank-list options; the no-copy twin of every constructor row; odd mode anywhere in a symmetry group (both versions); downward slice in an absent mode; sptenmat value counts; gcp_opt guesses of another rank / shape",
-    "C20": "layout option and second-call-after-scribble for diag / eye; index spaces beyond 2^63 cells; NumPy-integer arguments; zero diagonal elements; reducers by name (len, var, std, prod, first, last) and order-dependent callables over all-distinct / descending subscript lists; order-6 identity tensors; non-finite aggregates; functions returning vectors / columns / other shapes",
+    "C17": "narrow / huge subscript types in both memory orders against exact integer arithmetic; row sets of thousands of rows; NumPy-integer arguments; full-length index lists; signed row alphabets; all mode orders; explicitly empty selections",
+    "C18": "seeded stochastic GCP on sparse data with sub-sampling; scale factors 1e-10..1e8; integer-typed data; rounding-sensitivity gate for cp_apr comparisons; relabelling for GCP (L-BFGS-B) and four-way shapes; integer-typed data in every dense / sparse CP-ALS comparison; runs ending on the time budget; masked randomly started GCP; prescribed unequal ranks under relabelling; a subset of optimised modes; the guess as Kruskal tensor / list / tuple; all-zero factor rows",
+    "C19": "all-zero / full sparse receivers for every row; one-past-the-end subscripts in a single mode; every tenmat operator incl. the broadcastable split pair; offending aggregator rows that aggregate to zero; Kruskal operands of another order, surplus / single columns in mttkrp, mttkrps row counts, array scale factors of another shape, reconstruct modes, constructor value counts, update modes, rejected assignments that would grow the receiver, sparse right-hand sides that do not fit their slice, optdims / rank-list options; the no-copy twin of every constructor row; odd mode anywhere in a symmetry group (both versions); downward slice in an absent mode; sptenmat value counts; gcp_opt guesses of another rank / shape; one bare matrix for several modes; any operand kind on either side of a sum; non-cubical ttsv; per-mode inner-product mismatches; sparse right-hand sides of another order; matrices of values",
+    "C20": "layout option and second-call-after-scribble for diag / eye; index spaces beyond 2^63 cells; NumPy-integer arguments; zero diagonal elements; reducers by name (len, var, std, prod, first, last) and order-dependent callables over all-distinct / descending subscript lists; order-6 identity tensors; non-finite aggregates; functions returning vectors / columns / other shapes; requests for density exactly 1",
 }
 for _pid, _ext in EXT.items():
     if _pid in CLAIMED:
